@@ -36,6 +36,9 @@ func (c Config) Class() string {
 	if p.CacheSessions {
 		s += fmt.Sprintf(" sess=%s/%d", p.SessionCacheEvictionPolicy, p.SessionCacheMaxSize)
 	}
+	if p.CreateDatePrecision > time.Second {
+		s += " latest-revoked-in-its-window"
+	}
 	return s
 }
 
@@ -57,6 +60,11 @@ func DrawConfig(t *rapid.T) Config {
 		p.SessionCacheMaxSize = rapid.IntRange(1, 3).Draw(t, "sessCap")
 		p.SessionCacheEvictionPolicy = rapid.SampledFrom([]string{"", "lru", "lfu", "slru", "tinylfu"}).Draw(t, "sessPolicy")
 		p.SessionCacheDuration = rapid.SampledFrom([]time.Duration{0, 2 * time.Second, 2 * time.Hour}).Draw(t, "sessDur")
+	}
+	// stamps truncated to the hour: the replacement for the revoked first generation collides with it, so for the
+	// whole run the latest intermediate key is a revoked one that every encrypt reloads and re-caches
+	if rapid.IntRange(0, 2).Draw(t, "latestRevokedInItsWindow") == 1 {
+		p.CreateDatePrecision = time.Hour
 	}
 	c := Config{Pol: p, Workers: rapid.IntRange(2, 8).Draw(t, "workers"), OpsPer: rapid.IntRange(10, 40).Draw(t, "ops")}
 	c.Partitions = rapid.IntRange(3, 6).Draw(t, "partitions")
